@@ -92,3 +92,27 @@ Theorem C18_flatten_2d_is_row_major : forall (R L : Type) (dfs : list (list (lis
   flatten2 dfs labels = flatten1 (concat dfs) labels.
 Proof. exact @flatten2_spec. Qed.
 Print Assumptions C18_flatten_2d_is_row_major.
+
+(* split / drop by column NAME: a column is a sample column iff its name STARTS WITH "sample_" (not: contains it);
+   both parts keep the table order of the columns and carry every column (name, values) unchanged *)
+From Coq Require Import String.
+
+Theorem C18_split_by_sample_prefix : forall (C : Type) (cols : list (string * C)),
+  split_named cols = (filter (fun c => negb (String.prefix "sample_" (fst c))) cols,
+                      filter (fun c => String.prefix "sample_" (fst c)) cols) /\
+  drop_named cols = filter (fun c => negb (String.prefix "sample_" (fst c))) cols.
+Proof. exact @split_named_spec. Qed.
+Print Assumptions C18_split_by_sample_prefix.
+
+Theorem C18_sample_column_iff_name_starts_with_sample_ : forall s : string,
+  is_sample_name s = true <-> exists t, s = ("sample_" ++ t)%string.
+Proof. exact is_sample_name_iff. Qed.
+Print Assumptions C18_sample_column_iff_name_starts_with_sample_.
+
+Theorem C18_prefix_not_substring :
+  is_sample_name "sample_peak" = true /\ is_sample_name "sample_" = true /\
+  is_sample_name "n_sample_c3" = false /\ is_sample_name "resample_c1" = false /\
+  is_sample_name "samples_c2" = false /\ is_sample_name "Sample_c4" = false /\
+  is_sample_name "sample" = false /\ is_sample_name " sample_c0" = false.
+Proof. exact sample_prefix_not_substring. Qed.
+Print Assumptions C18_prefix_not_substring.
